@@ -42,11 +42,18 @@ RULE = (
 ASSUMPTIONS = [
     "the processor returns (None, None) for every message that is not one of the chosen host messages (the robust "
     "pattern all in-repo processors follow), so trace equality is independent of finding F12",
-    "head/tail generator objects are kept alive by the harness for the duration of a case (plan_mutator keys its "
-    "caches by id(); see the report for what happens otherwise)",
+    "mode 'hold': head/tail generator objects are kept alive by the harness for the whole case, so id() values are "
+    "never recycled; mode 'reuse': they are released as soon as plan_mutator drops them and the processor allocates "
+    "candidates until a new generator lands on the address of a dead one (what CPython's allocator does by itself "
+    "whenever sizes match) -- this exposes finding FC21a deterministically",
     "KeyboardInterrupt/SystemExit are never thrown; programs never yield None",
 ]
 ENGINE = "E2"
+
+#: Reading (b) of "inserted messages are not themselves re-processed": the processor must not be given
+#: messages created by head/tail generators.  The code does give them to it (finding F12, a behaviour
+#: decision).  Set to False to demote that part to a class label only.
+ASSERT_PROCESSOR_NOT_GIVEN_INSERTED_MESSAGES = True
 
 
 # ------------------------------------------------------------------------------------------
@@ -283,6 +290,8 @@ def check_case(case) -> Result:
     # (b) messages created by head/tail are given to the processor: finding F12
     fresh_inserted = [mid for mid in proc.calls if mid[0] != "host"]
     if fresh_inserted:
+        res.classes.append("processor_given_inserted_message")
+    if fresh_inserted and ASSERT_PROCESSOR_NOT_GIVEN_INSERTED_MESSAGES:
         res.fail(
             "proc_called_on_inserted_msg",
             f"processor was called with {len(fresh_inserted)} message(s) created by inserted head/tail programs, first {fresh_inserted[0]}",
